@@ -198,3 +198,76 @@ func dedupSorted(in []string) []string {
 	}
 	return out
 }
+
+// c17a-backlog: the carrier's write side is congested while the user keeps writing until the send
+// queue (queueSize packets) is full and packets are dropped; then the congested write fails, with the
+// read side still blocked.  The connection must redial as always.
+func init() {
+	harnesses = append(harnesses, &vs.Harness{
+		Name:     "c17a-backlog",
+		Horizon:  30 * time.Second,
+		MaxSteps: 200000,
+		Body: func(x *vs.X) {
+			extra := []int{-1, 0, 1, 50}[vs.Choose("extra", 4)] // user packets beyond the one in flight: queueSize + extra
+			w := &redialWorld{released: make(chan struct{}), scripts: []int{failNone, failNone}}
+			x.User = w
+			x.Outcome(fmt.Sprintf("backlog=queueSize%+d", extra))
+			stall := make(chan struct{})
+			w.carrierHook = func(c *FakeCarrier) {
+				if c.ID == 0 {
+					c.WriteStall = stall
+					c.WriteFailAfter = 0
+				}
+			}
+			w.c = NewRedialPacketConn(fakeAddr("l"), fakeAddr("r"), func(ctx context.Context) (net_PacketConn, error) { return w.dial(ctx) })
+			vs.GoRole("writer", vs.RoleRequest, func() {
+				buf := []byte("p")
+				for i := 0; i < 1+queueSize+extra; i++ {
+					if _, err := w.c.WriteTo(buf, fakeAddr("x")); err != nil {
+						w.writeErr = err
+						w.writeErrPre = true
+						return
+					}
+					if i == 0 {
+						// by t=1s the first packet is in flight on the congested carrier
+						vs.Sleep(time.Second)
+					}
+				}
+				// a second later the congested write fails
+				vs.Sleep(time.Second)
+				closeChan(stall)
+			})
+			vs.Sleep(5 * time.Second)
+			w.closeConn()
+		},
+		Check: func(x *vs.X) {
+			w := x.User.(*redialWorld)
+			x.Outcome(fmt.Sprintf("dials=%d", w.dialCalls))
+			for _, t := range x.Threads() {
+				if t.Panic != "" {
+					x.Fail("no-panic", "panic:"+firstLine(t.Panic), "thread %s panicked: %s\n%s", t.Name, t.Panic, t.PanicAt)
+				}
+			}
+			if w.writeErrPre {
+				x.Fail("no-surfaced-error", "redial:write-error-before-close", "WriteTo returned %v although the connection was not closed and no dial had failed", w.writeErr)
+			}
+			if w.dialCalls < 2 {
+				x.Fail("redials", "redial:no-redial-after-write-failure", "the carrier's write side failed but the connection dialled only %d time(s)", w.dialCalls)
+			}
+			for _, c := range w.carriers {
+				if !c.IsClosed() {
+					x.Fail("carriers-closed", "redial:carrier-not-closed", "carrier %d was never closed", c.ID)
+				}
+			}
+			var live []string
+			for _, t := range x.Threads() {
+				if !t.Done && strings.HasPrefix(t.Name, "common/turbotunnel/redialpacketconn.go") {
+					live = append(live, t.Name+"@"+t.Site)
+				}
+			}
+			if len(live) > 0 {
+				x.Fail("no-leak", "redial:goroutine-leak:"+strings.Join(dedupSorted(live), "+"), "%d goroutine(s) of the package still alive after Close: %v", len(live), live)
+			}
+		},
+	})
+}
